@@ -48,10 +48,13 @@ structure Quirks where
   evoProposalOrder : Bool
   /-- pinned: `Evolution.recover` raises `num_generations` to the generation id of *initial* DNAs too. -/
   evoInitGenBump : Bool
+  /-- before fixes/C15-F165: `Evolution.recover` decides "the initial population is complete" from the
+  fed-back initial DNAs of the *current* `recover()` call instead of the total number of feedbacks. -/
+  evoInitDonePerCall : Bool
   deriving DecidableEq, Repr
 
-def Quirks.pinned : Quirks := ⟨true, true, true⟩
-def Quirks.patched : Quirks := ⟨false, false, false⟩
+def Quirks.pinned : Quirks := ⟨true, true, true, true⟩
+def Quirks.patched : Quirks := ⟨false, false, false, false⟩
 
 inductive Algo where
   | sweeping
@@ -344,13 +347,23 @@ def recover (env : Env) : Algo → St → Hist → Except Err St
       match s' with
       | .evolution np nf si ini g pop pend =>
         let initPop := h.filter isInitFed
-        let done := match initSize with | some n => decide (n ≤ initPop.length) | none => false
+        let done := match initSize with
+          | some n => if env.q.evoInitDonePerCall then decide (n ≤ initPop.length) else decide (n ≤ nf)
+          | none => false
         let ini' := ini || done
         let g' := if done && !env.q.evoInitGenBump && g = 0 then 1 else g
         match recover env init si initPop with
         | .error e => .error e
         | .ok si' => .ok (.evolution np nf si' ini' g' pop pend)
       | _ => .error .mismatch
+
+/-- Several consecutive `recover()` calls on one instance ("previous study + current study",
+dna_generator.py:151-153): the history reaches the generator in chunks. -/
+def recoverChunks (env : Env) (a : Algo) (s : St) : List Hist → Except Err St
+  | [] => .ok s
+  | h :: hs => match recover env a s h with
+    | .error e => .error e
+    | .ok s' => recoverChunks env a s' hs
 
 /-! ### Runs -/
 
